@@ -312,7 +312,8 @@ Record state := {
   s_limits : option (list limit);            (* linux_proc_limits, in HashMap iteration order *)
   s_mac_crash : option (list macrec);
   s_bootargs : option (list Z);              (* mac_boot_args and its bootargs, flattened *)
-  s_handles : option (list handle) }.
+  s_handles : option (list handle);
+  s_soft : option json }.                    (* soft_errors: whatever JSON text the dump's MozSoftErrors stream held, parsed *)
 
 (* names of enumeration-valued members; the tables are regenerated from the source on every run *)
 Definition nth_name (tbl : list (list Z)) (i : Z) : list Z := nth (Z.to_nat i) tbl [].
@@ -636,8 +637,15 @@ Definition json_of_macrec (w : pwidth) (r : macrec) : json :=
 Definition json_of_handle (h : handle) : json :=
   JObj [(k_handle, jopt JNum (h_handle h)); (k_object_name, jopt JStr (h_object h)); (k_type_name, jopt JStr (h_type h))].
 
-(* the whole report except "soft_errors" (a serde_json::Value passed through from the dump) and the binary32
-   "confidence" of each bit flip (serde_json's float writer; checked separately against C19's exact model) *)
+(* "soft_errors": the stream is free-form JSON text; print_json reports it only when it has the documented shape, an
+   array of objects (anything else a damaged dump carries there is dropped: /repo fix F-C15d) *)
+Definition is_obj (v : json) : bool := match v with JObj _ => true | _ => false end.
+Definition soft_ok (v : json) : bool := match v with JArr l => forallb is_obj l | _ => false end.
+Definition soft_value (o : option json) : json :=
+  match o with Some v => if soft_ok v then v else JNull | None => JNull end.
+
+(* the whole report except the binary32 "confidence" of each bit flip (serde_json's float writer; checked separately
+   against C19's exact model) *)
 Definition json_of_state (p : profile) (s : state) : outcome json :=
   let w := s_width s in
   do threads <- omap (json_of_thread p w) (s_threads s);
@@ -657,6 +665,7 @@ Definition json_of_state (p : profile) (s : state) : outcome json :=
     (k_modules_contains_cert_info, JBool (match s_certinfo s with [] => false | _ => true end));
     (k_pid, jopt JNum (s_pid s));
     (k_proc_limits, jopt (fun l => JObj [(k_limits, JArr (map json_of_limit (sort_limits l)))]) (s_limits s));
+    (k_soft_errors, soft_value (s_soft s));
     (k_status, JStr s_OK);
     (k_system_info, json_of_sys (s_sys s));
     (k_thread_count, JNum (Z.of_nat (length (s_threads s))));
